@@ -12,6 +12,43 @@ use crate::props::{budget, run_rule_case};
 use crate::suites::{pattern_rel, t_and, t_not, t_of, t_or, Tri};
 
 pub struct Unsupported(pub String);
+
+thread_local! {
+    /// When set, `all()` combines its members in the engine's batching order instead of the
+    /// written order (used only to attribute a mismatch to the recorded member-order finding).
+    static ENGINE_ORDER: std::cell::Cell<bool> = std::cell::Cell::new(false);
+}
+
+/// Rank of a list member in the order the engine's parser emits them (parser.rs:1382-1551):
+/// empty exact strings, case-sensitive literals, case-insensitive literals, regexes, i-regexes,
+/// then everything else in written order.
+fn batch_rank(v: &Yaml) -> u8 {
+    match v {
+        Yaml::String(p) => {
+            let (ci, body) = match p.strip_prefix('i') { Some(r) => (true, r), None => (false, p.as_str()) };
+            if numeric_pattern(body).is_some() || body == "*" {
+                5
+            } else if body.starts_with('?') {
+                if ci { 4 } else { 3 }
+            } else if body.is_empty() || body == "''" || body == "\"\"" {
+                0
+            } else if ci {
+                2
+            } else {
+                1
+            }
+        }
+        _ => 5,
+    }
+}
+
+fn order_members<'a>(ms: &'a [Yaml]) -> Vec<&'a Yaml> {
+    let mut v: Vec<&Yaml> = ms.iter().collect();
+    if ENGINE_ORDER.with(|f| f.get()) {
+        v.sort_by_key(|m| batch_rank(m));
+    }
+    v
+}
 type R<T> = Result<T, Unsupported>;
 
 fn unsup<T>(s: &str) -> R<T> {
@@ -319,7 +356,7 @@ fn eval_entry(doc: &Yaml, k: &Yaml, v: &Yaml) -> R<Tri> {
                 other => other,
             };
             let mut rs = vec![];
-            for x in ms {
+            for x in order_members(ms) {
                 rs.push(eval_member(doc, &f, inner_mod, x)?);
             }
             match m {
@@ -376,7 +413,7 @@ fn identifier_entries(y: &Yaml, doc: &Yaml) -> R<Vec<Tri>> {
             match (md, v) {
                 // a one-key mapping *is* its value: a list under a plain or cast key contributes
                 // its members (read through that cast); not()/all()/of() keys are one entry
-                (Mod::None | Mod::Int | Mod::Flt | Mod::Str, Yaml::Sequence(ms)) => ms.iter().map(|x| eval_member(doc, &f, md, x)).collect(),
+                (Mod::None | Mod::Int | Mod::Flt | Mod::Str, Yaml::Sequence(ms)) => order_members(ms).into_iter().map(|x| eval_member(doc, &f, md, x)).collect(),
                 _ => Ok(vec![eval_entry(doc, k, v)?]),
             }
         }
@@ -448,6 +485,27 @@ fn eval_cond(c: &Cond, ids: &[(String, Yaml)], doc: &Yaml) -> R<Tri> {
     })
 }
 
+/// Conditions of the simple forms used by corpus witnesses.
+fn simple_cond(text: &str) -> Option<Cond> {
+    let t = text.trim();
+    if let Some(r) = t.strip_prefix("not ") {
+        return simple_cond(r).map(|c| Cond::Not(Box::new(c)));
+    }
+    if let Some(r) = t.strip_prefix("all(").and_then(|r| r.strip_suffix(')')) {
+        return Some(Cond::All(r.trim().to_string()));
+    }
+    if let Some(r) = t.strip_prefix("of(").and_then(|r| r.strip_suffix(')')) {
+        let mut it = r.split(',');
+        let i = it.next()?.trim().to_string();
+        let n = it.next()?.trim().parse::<u64>().ok()?;
+        return Some(Cond::Of(i, n));
+    }
+    if !t.is_empty() && t.chars().all(|c| c.is_ascii_alphanumeric()) {
+        return Some(Cond::Id(t.to_string()));
+    }
+    None
+}
+
 // ------------------------------------------------------------------------------------ runner
 
 /// Shapes under which a recorded finding explains a disagreement with the reference semantics.
@@ -499,9 +557,18 @@ pub fn run_c02(ctx: &mut Ctx, known: &Known) {
                         let shape = format!("{} {}", p.expr, p.ids);
                         let ry = rule_yaml(&c);
                         let verdict_differs = (got[j] == "T") != (want == Tri::T);
+                        // would the reference agree if all() combined its members in the engine's
+                        // batching order instead of the written order?
+                        ENGINE_ORDER.with(|f| f.set(true));
+                        let reordered = eval_cond(&cond, &ids, d).ok();
+                        ENGINE_ORDER.with(|f| f.set(false));
+                        let member_order = reordered.map(|w| w.name() == got[j]).unwrap_or(false);
                         match known_shape(&shape) {
                             Some(fam) if ex.agree && ex.supported && known.has_family("C02", fam) => {
                                 *ctx.known_hits.entry(format!("random:{}", fam)).or_insert(0) += 1;
+                            }
+                            _ if member_order && ex.agree && ex.supported && known.has_family("C02", "C02-member-order") => {
+                                *ctx.known_hits.entry("random:C02-member-order".to_string()).or_insert(0) += 1;
                             }
                             _ => {
                                 ctx.violation(
@@ -527,9 +594,29 @@ pub fn run_c02(ctx: &mut Ctx, known: &Known) {
             if f.witnesses.iter().any(|w| *w == name) {
                 let (ex, p) = run_rule_case(ctx, &c, false);
                 if let Some(p) = p {
+                    if p.load != "ok" || !ex.agree {
+                        continue;
+                    }
                     let shape = format!("{} {}", p.expr, p.ids);
-                    if p.load == "ok" && ex.agree && known_shape(&shape) == Some(f.family.as_str()) {
+                    if known_shape(&shape) == Some(f.family.as_str()) {
                         *ctx.known_hits.entry(f.id.clone()).or_insert(0) += 1;
+                    } else if f.family == "C02-member-order" {
+                        // the witness must still disagree with the written-order reference and
+                        // agree with the batching-order one
+                        let ids: Vec<(String, Yaml)> = c.det.iter().filter(|(k, _)| k != "condition").cloned().collect();
+                        let text = c.det.iter().find(|(k, _)| k == "condition").and_then(|(_, v)| v.as_str()).unwrap_or("").to_string();
+                        if let Some(cond) = simple_cond(&text) {
+                            for (j, d) in c.docs.iter().enumerate() {
+                                let got = p.masks[0].res[j].0.clone();
+                                let want = eval_cond(&cond, &ids, d).ok().map(|t| t.name().to_string());
+                                ENGINE_ORDER.with(|fl| fl.set(true));
+                                let re = eval_cond(&cond, &ids, d).ok().map(|t| t.name().to_string());
+                                ENGINE_ORDER.with(|fl| fl.set(false));
+                                if want.as_deref() != Some(got.as_str()) && re.as_deref() == Some(got.as_str()) {
+                                    *ctx.known_hits.entry(f.id.clone()).or_insert(0) += 1;
+                                }
+                            }
+                        }
                     }
                 }
             }
